@@ -201,9 +201,10 @@ func polyDeviation(deviator int, kind string) func(node int, op *types.Operation
 
 func c02(tier string, args []string) int {
 	r := newRun("C02", tier, "model_checking")
-	maxN := 4
+	// honest ceremonies up to n=5 (6 thorough); deviating announcements up to n=4
+	maxN := 5
 	if tier == "thorough" {
-		maxN = 5
+		maxN = 6
 	}
 	r.Assume = []string{
 		"eager polling and merging on node stores in the key-generation phase (lemmas in DESIGN §3.2; the unmerged exploration is C08's)",
